@@ -17,6 +17,7 @@ type Sorts struct {
 	boxOrder []string
 	tags     map[string]int // type string -> interface tag
 	tagOrder []string
+	tagTypes []types.Type
 	ufuns    map[string]string // name -> declaration command
 	ufOrder  []string
 	axioms   []axiom
@@ -155,7 +156,15 @@ func (s *Sorts) Tag(t types.Type) int {
 	n := len(s.tags) + 1
 	s.tags[k] = n
 	s.tagOrder = append(s.tagOrder, k)
+	s.tagTypes = append(s.tagTypes, t)
 	return n
+}
+
+func (s *Sorts) tagType(tag int) types.Type {
+	if tag >= 1 && tag <= len(s.tagTypes) {
+		return s.tagTypes[tag-1]
+	}
+	return nil
 }
 
 // Box returns the names of the injection functions for values of type t in interfaces.
